@@ -92,6 +92,20 @@ static void solve(const std::string & alg, const M & model, unsigned h, vio::Out
     else throw std::logic_error("unknown solver " + alg);
 }
 
+// RTBSS on a fresh object, and on an object that was constructed while the model still had a much smaller discount
+// and that answered another query before the discount was set to its final value (RTBSS keeps a reference to the
+// model): both answers must be the same
+template <typename M>
+static void runRtbss(M & model, double maxR, const POMDP::Belief & b, unsigned h, vio::Out & o) {
+    { POMDP::RTBSS s(model, maxR); auto [a, v] = s.sampleAction(b, h); o << a << v; }
+    const double g = model.getDiscount();
+    if constexpr (requires { model.setDiscount(0.5); }) model.setDiscount(g / 8);
+    POMDP::RTBSS s2(model, maxR);
+    { POMDP::Belief u(b.size()); u.fill(1.0 / b.size()); s2.sampleAction(u, h > 1 ? h - 1 : 1); }
+    if constexpr (requires { model.setDiscount(0.5); }) model.setDiscount(g);
+    auto [a2, v2] = s2.sampleAction(b, h); o << a2 << v2;
+}
+
 int main(int argc, char ** argv) {
     return vio::runCases(argc, argv, [](vio::Cursor & c, vio::Out & o) {
         const std::string kind = c.next();
@@ -119,11 +133,11 @@ int main(int argc, char ** argv) {
             Tables t = readPomdp(c);
             auto bv = c.nextDoubles(); POMDP::Belief b(bv.size()); for (size_t i = 0; i < bv.size(); ++i) b[i] = bv[i];
             POMDP::Model<MDP::Model> dense(t.O, t.Ob, t.S, t.A, t.T, t.R, t.g);
-            if (repr == "dense") { POMDP::RTBSS s(dense, maxR); auto [a, v] = s.sampleAction(b, h); o << a << v; POMDP::RTBSS s2(dense, maxR); { POMDP::Belief u(b.size()); u.fill(1.0 / b.size()); s2.sampleAction(u, h > 1 ? h - 1 : 1); } auto [a2, v2] = s2.sampleAction(b, h); o << a2 << v2; }
-            else if (repr == "generic") { GenericPOMDP g(dense); POMDP::RTBSS s(g, maxR); auto [a, v] = s.sampleAction(b, h); o << a << v; POMDP::RTBSS s2(g, maxR); { POMDP::Belief u(b.size()); u.fill(1.0 / b.size()); s2.sampleAction(u, h > 1 ? h - 1 : 1); } auto [a2, v2] = s2.sampleAction(b, h); o << a2 << v2; }
-            else if (repr == "mixed1") { POMDP::Model<MDP::SparseModel> x(dense); POMDP::RTBSS s(x, maxR); auto [a, v] = s.sampleAction(b, h); o << a << v; POMDP::RTBSS s2(x, maxR); { POMDP::Belief u(b.size()); u.fill(1.0 / b.size()); s2.sampleAction(u, h > 1 ? h - 1 : 1); } auto [a2, v2] = s2.sampleAction(b, h); o << a2 << v2; }
-            else if (repr == "mixed2") { POMDP::SparseModel<MDP::Model> x(dense); POMDP::RTBSS s(x, maxR); auto [a, v] = s.sampleAction(b, h); o << a << v; POMDP::RTBSS s2(x, maxR); { POMDP::Belief u(b.size()); u.fill(1.0 / b.size()); s2.sampleAction(u, h > 1 ? h - 1 : 1); } auto [a2, v2] = s2.sampleAction(b, h); o << a2 << v2; }
-            else { POMDP::SparseModel<MDP::SparseModel> sp(dense); POMDP::RTBSS s(sp, maxR); auto [a, v] = s.sampleAction(b, h); o << a << v; POMDP::RTBSS s2(sp, maxR); { POMDP::Belief u(b.size()); u.fill(1.0 / b.size()); s2.sampleAction(u, h > 1 ? h - 1 : 1); } auto [a2, v2] = s2.sampleAction(b, h); o << a2 << v2; }
+            if (repr == "dense") runRtbss(dense, maxR, b, h, o);
+            else if (repr == "generic") { GenericPOMDP g(dense); runRtbss(g, maxR, b, h, o); }
+            else if (repr == "mixed1") { POMDP::Model<MDP::SparseModel> x(dense); runRtbss(x, maxR, b, h, o); }
+            else if (repr == "mixed2") { POMDP::SparseModel<MDP::Model> x(dense); runRtbss(x, maxR, b, h, o); }
+            else { POMDP::SparseModel<MDP::SparseModel> sp(dense); runRtbss(sp, maxR, b, h, o); }
         } else throw std::logic_error("unknown case kind " + kind);
     });
 }
